@@ -294,13 +294,15 @@ def check_order(res=None):
 
 
 # ---------------------------------------------------------------------------
-def check_jacobian(mname, spec, flux, rname, bc, perm, res=None):
+def check_jacobian(mname, spec, flux, rname, bc, perm, res=None, scale=1.0):
+    """scale: the conservative field (and Burgers' boundary values) multiplied by it - Burgers and Euler are homogeneous in the conservative
+    variables (degree 2 and 1), so the relative accuracy the Jacobian must have is the same at every magnitude of the data"""
     kind = {"burgers": "burgers", "euler1d": "euler1d", "shallowwater": "shallowwater"}[spec[0]]
     mesh = space.mesh_spec(("w", (1.0, 0.5, 2.0, 1.0)))
     if bc == "per":
         bcs = ("per", "per")
     elif kind == "burgers":
-        bcs = (("dirichlet", [0.9]), ("dirichlet", [1.6]))
+        bcs = (("dirichlet", [0.9 * scale]), ("dirichlet", [1.6 * scale]))
     else:
         bcs = ("sym", "sym")
     model, disc = space.build_1d(spec, flux, rname, mesh, bcs[0], bcs[1])
@@ -311,9 +313,13 @@ def check_jacobian(mname, spec, flux, rname, bc, perm, res=None):
         al = al + [0.5 * (al[0] + al[1]) * 1.07]
     n = mesh.ncell
     f = space.field_from_letters(model, mesh, al, perm)
+    if scale != 1.0:
+        f.data = [np.asarray(d, float) * scale for d in f.data]
     neq = model.neq
     out = []
     site = "C06/jacobian/%s/%s/%s" % (mname, flux or "builtin", "unlimited" if space.recon_kappa(rname) is not None else rname.replace(":", "-"))
+    if scale != 1.0:
+        site += "/data-magnitude-%g" % scale
     cls = space.integ.implicit
     solver = cls(mesh, disc)
     with np.errstate(all="ignore"):
@@ -497,6 +503,12 @@ def shard_jac(arg):
             res.nontrivial += 1
             for s, w in check_jacobian(mname, spec, flux, rname, bc, perm, res):
                 res.violation(s, w, {"kind": "jac", "model": mname, "spec": list(spec), "flux": flux, "recon": rname, "bc": bc, "perm": list(perm)})
+        if mname in ("burgers", "euler1d"):
+            for scale in (1e-8, 1e6):
+                for perm in list(itertools.permutations(range(4)))[::4]:
+                    res.nontrivial += 1
+                    for s, w in check_jacobian(mname, spec, flux, rname, bc, perm, res, scale):
+                        res.violation(s, w, {"kind": "jac", "model": mname, "spec": list(spec), "flux": flux, "recon": rname, "bc": bc, "perm": list(perm), "scale": scale})
         for perm in list(itertools.permutations(range(4)))[::5]:
             for s, w in check_nonlinear_steps(mname, spec, flux, rname, bc, perm, res):
                 res.violation(s, w, {"kind": "nl", "model": mname, "spec": list(spec), "flux": flux, "recon": rname, "bc": bc, "perm": list(perm)})
@@ -530,4 +542,4 @@ def replay(case):
         return check_order()
     if k == "nl":
         return check_nonlinear_steps(case["model"], tuple(case["spec"]), case["flux"], case["recon"], case["bc"], tuple(case["perm"]))
-    return check_jacobian(case["model"], tuple(case["spec"]), case["flux"], case["recon"], case["bc"], tuple(case["perm"]))
+    return check_jacobian(case["model"], tuple(case["spec"]), case["flux"], case["recon"], case["bc"], tuple(case["perm"]), None, case.get("scale", 1.0))
